@@ -19,7 +19,7 @@ RULE = ("seeded composition histories (<= 8 composition calls) on a generated pa
         "spliced node whose function depends on a parent signal")
 PROBES = ["fill_after_second_add_blackbox", "same_child_twice", "nested_bb_carried", "child_fed_by_child",
           "rejected_call", "strip_with_ignore", "strip_plain", "fill_ok", "add_subcircuit_ok", "add_blackbox_ok",
-          "unattached_child_input", "feedthrough_child"]
+          "unattached_child_input", "feedthrough_child", "same_connection_map_object_reused"]
 ASSUMPTIONS = ["<= 10 free signals at any time; histories creating a combinational loop are cut at that point",
                "a child node that is both input and output (feed-through pin) is attached as an INPUT when named in the "
                "connection map, as the statement says for sc's inputs"]
@@ -236,6 +236,7 @@ def gen(rng, tier):
     ops = []
     insts = ["u", "v", "w", "u_n1", "m"]
     cnt = 0
+    last_sub = None
     n_comp = rng.randint(2, 8)
     for _ in range(n_comp * 2):
         if sum(1 for o in ops if o[0] in ("add_blackbox", "add_subcircuit", "fill_blackbox")) >= n_comp:
@@ -304,13 +305,23 @@ def gen(rng, tier):
                     conns["nokey"] = rng.choice(drivers) if drivers else "p0"
                 else:
                     conns[rng.choice(ins)] = "missing_net"
-            for po in pre:
-                ops.append(po)
-                R["nodes"][po[1]] = ["buf", [], False]
             if rng.random() < 0.3:
                 items = list(conns.items())
                 rng.shuffle(items)
                 conns = dict(items)
+            if last_sub is not None and not invalid and rng.random() < 0.3:
+                # repeated instantiation with the SAME connection map (the run passes the same dict object again)
+                ci, conns = last_sub[0], dict(last_sub[1])
+                pre = []
+            elif not invalid and rng.random() < 0.3:
+                ins_only = {k: v for k, v in conns.items() if k in ins}
+                if ins_only:
+                    conns = ins_only
+                    pre = []
+                    last_sub = (ci, dict(conns))
+            for po in pre:
+                ops.append(po)
+                R["nodes"][po[1]] = ["buf", [], False]
             op = ["add_subcircuit", ci, inst, conns]
         elif r < 0.85:  # fill
             if R["bbs"] and not invalid:
@@ -413,6 +424,8 @@ def run(case, ctx):
         bbts.append((cg.BlackBox(f"T{i}", ins, outs), [f"T{i}", ins, outs]))
     R = copy.deepcopy(parent)
     n_ok = 0
+    interned = {}        # connection maps with equal content are passed as the SAME dict object, like a caller
+                         # that builds its map once and instantiates several times
     used_children = []
     n_add_bb = 0
     spliced_dep = False
@@ -447,7 +460,12 @@ def run(case, ctx):
             elif k == "add_blackbox":
                 c.add_blackbox(bbts[op[1]][0], op[2], dict(op[3]))
             elif k == "add_subcircuit":
-                c.add_subcircuit(kids[op[1]], op[2], dict(op[3]))
+                import json as _json
+                key = _json.dumps([op[1], op[3]], sort_keys=True)
+                if key in interned:
+                    ctx.probe("same_connection_map_object_reused")
+                    sig["map_reused"] = True
+                c.add_subcircuit(kids[op[1]], op[2], interned.setdefault(key, dict(op[3])))
             elif k == "fill_blackbox":
                 c.fill_blackbox(op[1], kids[op[2]])
             elif k == "strip_blackboxes":
@@ -517,7 +535,7 @@ def run(case, ctx):
 
 
 def sig_key(sig):
-    return (sig.get("op"), sig.get("exc"))
+    return (sig.get("op"), sig.get("exc"), sig.get("map_reused"))
 
 
 def shrink(case):
